@@ -72,6 +72,15 @@ pub struct Interpreter<TStdlib: Stdlib, TStdIn: Input, TStdOut: Printer, TLpt1: 
 
     value_stack: Vec<Variant>,
 
+    /// The depths of the value stack and of the variable path stack
+    /// at the start of the statement that is currently being executed.
+    /// Whatever a statement has pushed beyond that is dropped if it fails
+    /// and the error is handled.
+    statement_mark: (usize, usize),
+
+    /// The statement marks of the callers, saved while a subprogram runs.
+    saved_statement_marks: Vec<(usize, usize)>,
+
     last_error_address: Option<usize>,
 
     last_error_code: Option<i32>,
@@ -202,6 +211,9 @@ impl<TStdlib: Stdlib, TStdIn: Input, TStdOut: Printer, TLpt1: Printer> Interpret
             }
             let instruction = &instructions[i].element;
             let pos = instructions[i].pos();
+            if ctx.nearest_statement_finder.is_statement_start(i) {
+                self.statement_mark = (self.value_stack.len(), self.var_path_stack.len());
+            }
             match self.interpret_one(i, instruction, pos, &mut ctx) {
                 Ok(_) => match ctx.opt_next_index.take() {
                     Some(next_index) => {
@@ -215,6 +227,11 @@ impl<TStdlib: Stdlib, TStdIn: Input, TStdOut: Printer, TLpt1: Printer> Interpret
                     #[cfg(feature = "verif")]
                     self.verif.errors.push(i);
                     self.last_error_code = Some(e.err().get_code());
+                    if !matches!(ctx.error_handler, ErrorHandler::None) {
+                        // drop what the failed statement has left on the stacks
+                        self.value_stack.truncate(self.statement_mark.0);
+                        self.var_path_stack.truncate(self.statement_mark.1);
+                    }
                     match ctx.error_handler {
                         ErrorHandler::Address(handler_address) => {
                             // store error address, so we can call RESUME and RESUME NEXT from within the error handler
@@ -282,6 +299,8 @@ impl<TStdlib: Stdlib, TStdIn: Input, TStdOut: Printer, TLpt1: Printer>
             by_ref_stack: VecDeque::new(),
             function_result: None,
             value_stack: vec![],
+            statement_mark: (0, 0),
+            saved_statement_marks: vec![],
             last_error_address: None,
             last_error_code: None,
             print_state: PrintState::new(),
@@ -403,15 +422,19 @@ impl<TStdlib: Stdlib, TStdIn: Input, TStdOut: Printer, TLpt1: Printer>
             Instruction::PushStack => {
                 self.context.stop_collecting_arguments();
                 self.stacktrace.insert(0, pos);
+                self.saved_statement_marks.push(self.statement_mark);
             }
             Instruction::PushStaticStack(scope_name) => {
                 self.context
                     .stop_collecting_arguments_static(scope_name.clone());
                 self.stacktrace.insert(0, pos);
+                self.saved_statement_marks.push(self.statement_mark);
             }
             Instruction::PopStack => {
                 self.context.pop();
                 self.stacktrace.remove(0);
+                // back to the statement of the caller
+                self.statement_mark = self.saved_statement_marks.pop().unwrap_or((0, 0));
             }
             Instruction::EnqueueToReturnStack(index) => {
                 subprogram::enqueue_to_return_stack(self, *index);
@@ -598,6 +621,7 @@ impl<TStdlib: Stdlib, TStdIn: Input, TStdOut: Printer, TLpt1: Printer>
     fn leave_failed_built_in(&mut self, err: RuntimeError) -> RuntimeErrorPos {
         let call_pos = self.stacktrace.remove(0);
         self.context.pop();
+        self.statement_mark = self.saved_statement_marks.pop().unwrap_or((0, 0));
         RuntimeErrorPos::new(err, call_pos)
     }
 
@@ -732,6 +756,10 @@ impl NearestStatementFinder {
         Self {
             statement_addresses,
         }
+    }
+
+    pub fn is_statement_start(&self, address: usize) -> bool {
+        self.statement_addresses.binary_search(&address).is_ok()
     }
 
     pub fn find_current(&self, address: usize) -> usize {
